@@ -13,7 +13,6 @@ Three case kinds:
 import io
 import math
 import os
-import random
 import re
 import tempfile
 from contextlib import redirect_stdout
